@@ -388,15 +388,29 @@ func c14CriticalPointsFiltered(c *core.Check) {
 			r.Fail(key, p.Pos(call.Pos()), "the parameter of the curve is not compared before it is used: critical points outside [0, 1] and NaN reach the bounding box")
 			return
 		}
+		// an explicit test math.IsNaN(t) found false serves as well
+		isNaN := map[ssa.Value]bool{}
+		for _, a := range core.CondAtoms(fn) {
+			if nc, ok := a.(*ssa.Call); ok && nc.Call.StaticCallee() != nil && nc.Call.StaticCallee().Name() == "IsNaN" && len(nc.Call.Args) == 1 {
+				if core.DerivesFrom(nc.Call.Args[0], func(v ssa.Value) bool { return v == t }) {
+					isNaN[a] = true
+					atoms = append(atoms, a)
+				}
+			}
+		}
 		ok2, _ := core.GuardedBy(fn, call.Block(), atoms, func(m map[ssa.Value]bool) bool {
-			for _, v := range m {
-				if v {
+			for a, v := range m {
+				if isNaN[a] {
+					if !v {
+						return true
+					}
+				} else if v {
 					return true
 				}
 			}
 			return false
 		})
-		r.Cond(ok2, key, p.Pos(call.Pos()), fmt.Sprintf("reached only when one of the %d ordered comparisons of t is true", len(atoms)), "a path reaches evaluateCurve(t) on which every ordered comparison of t was false: NaN (a degenerate segment) passes the filter and the bounding box is NaN")
+		r.Cond(ok2, key, p.Pos(call.Pos()), fmt.Sprintf("reached only when one of the %d comparisons of t excludes NaN", len(atoms)), "a path reaches evaluateCurve(t) on which every ordered comparison of t was false: NaN (a degenerate segment) passes the filter and the bounding box is NaN")
 	})
 	if n == 0 {
 		r.Unknown("svg.computeBezierBoundingBox | evaluateCurve(t)", p.Pos(fn.Pos()), "no call of evaluateCurve")
